@@ -549,7 +549,8 @@ Definition looking (line : text) (s : rstate) : rstate :=
            | None => s
            | Some end_time =>
              let '(regions, ri) := get_or_make_region (rs_regions s) (skipn 3 cue_params) in
-             mkR LText regions (rs_paras s) (Some (mkPara start_time end_time ri [])) false (rs_text s)
+             (* current_p = model.P(doc); subtitle_text = "" *)
+             mkR LText regions (rs_paras s) (Some (mkPara start_time end_time ri [])) false (Some [])
            end
          end.
 
@@ -560,7 +561,7 @@ Fixpoint run_lines (items : list (option text)) (s : rstate) : outcome :=
     match rs_state s with
     | LStart =>
       match line with
-      | None => Raised ExAttribute                         (* None.startswith *)
+      | None => OkDoc (rs_regions s) (rs_paras s)          (* if line is None: break *)
       | Some _ => run_lines rest (set_state LLooking s)
       end
     | LNote | LStyle =>
@@ -576,7 +577,7 @@ Fixpoint run_lines (items : list (option text)) (s : rstate) : outcome :=
     | LText | LTextMore =>
       if match line with None => true | Some l => is_blank l end then
         match rs_text s with
-        | None => Raised ExUnboundLocal                    (* subtitle_text referenced before assignment *)
+        | None => Raised ExUnboundLocal                    (* unreachable: the variable is bound when the cue is created *)
         | Some t =>
           match rs_cur s with
           | None => Raised ExModelInternal
